@@ -14,6 +14,7 @@ pub struct Config {
     pub mode: String,        // sync | async
     pub sched: String,       // fifo | lifo | rand:<seed>
     pub cancel: Option<usize>,
+    pub cancel_call: Option<usize>,
     pub transient: bool,
     pub activity: Option<(f32, f32)>,
     pub gate_fs: bool,
@@ -22,13 +23,13 @@ pub struct Config {
 }
 
 impl Default for Config {
-    fn default() -> Self { Config { mode: "sync".into(), sched: "fifo".into(), cancel: None, transient: false, activity: None, gate_fs: false, sort_peeks: false, render: true } }
+    fn default() -> Self { Config { mode: "sync".into(), sched: "fifo".into(), cancel: None, cancel_call: None, transient: false, activity: None, gate_fs: false, sort_peeks: false, render: true } }
 }
 
 impl Config {
     pub fn to_line(&self) -> String {
         format!("config mode {} sched {} cancel {} transient {} activity {} gatefs {} sortpeeks {} render {}",
-            self.mode, self.sched, self.cancel.map(|c| c.to_string()).unwrap_or("-".into()), self.transient as u8,
+            self.mode, self.sched, self.cancel.map(|c| c.to_string()).or(self.cancel_call.map(|c| format!("c{c}"))).unwrap_or("-".into()), self.transient as u8,
             self.activity.map(|(a, d)| format!("{a}:{d}")).unwrap_or("-".into()), self.gate_fs as u8, self.sort_peeks as u8, self.render as u8)
     }
     pub fn from_line(l: &str) -> Config {
@@ -39,7 +40,7 @@ impl Config {
             match t[i] {
                 "mode" => c.mode = t[i + 1].into(),
                 "sched" => c.sched = t[i + 1].into(),
-                "cancel" => c.cancel = t[i + 1].parse().ok(),
+                "cancel" => { c.cancel = t[i + 1].parse().ok(); c.cancel_call = t[i + 1].strip_prefix('c').and_then(|x| x.parse().ok()); }
                 "transient" => c.transient = t[i + 1] == "1",
                 "activity" => c.activity = t[i + 1].split_once(':').map(|(a, d)| (a.parse().unwrap(), d.parse().unwrap())),
                 "gatefs" => c.gate_fs = t[i + 1] == "1",
@@ -58,6 +59,26 @@ pub fn gen_case(rng: &mut Rng, kind: Kind) -> Vec<String> {
     let mut lines = g.u.to_lines();
     lines.push(g.p.to_line());
     lines.push(Config::default().to_line());
+    lines
+}
+
+/// C12: a case whose cancellation plan is drawn from the polls / provider requests of the uncancelled run.
+pub fn gen_cancel_case(rng: &mut Rng) -> Vec<String> {
+    let kind = *rng.pick(&[Kind::General, Kind::Tight, Kind::Hints, Kind::Soft, Kind::Lazy]);
+    let g = gen::generate(rng, kind);
+    let mut lines = g.u.to_lines();
+    lines.push(g.p.to_line());
+    // measure the uncancelled run
+    let mut probe = lines.clone();
+    probe.push(Config { render: false, ..Config::default() }.to_line());
+    let out = run_case(&probe);
+    let polls: usize = out.iter().find_map(|l| l.strip_prefix("polls ").and_then(|x| x.parse().ok())).unwrap_or(1);
+    let calls: usize = out.iter().find(|l| l.starts_with("calls")).map(|l| l.split(' ').filter(|w| w.starts_with('c') && *w != "calls" || w.starts_with('d')).count()).unwrap_or(0);
+    let mut cfg = Config { render: false, ..Config::default() };
+    cfg.transient = rng.chance(1, 3);
+    if calls > 0 && rng.chance(1, 2) { cfg.cancel_call = Some(rng.below(calls as u64) as usize); }
+    else { cfg.cancel = Some(rng.below(polls as u64 + 1) as usize); }
+    lines.push(cfg.to_line());
     lines
 }
 
@@ -156,7 +177,7 @@ pub fn run_case(lines: &[String]) -> Vec<String> {
     let mut out = Vec::new();
     let mut provider = TableProvider::new(u);
     provider.sort_peeks_deps = cfg.sort_peeks;
-    *provider.cancel.borrow_mut() = CancelPlan { at: cfg.cancel, transient: cfg.transient };
+    *provider.cancel.borrow_mut() = CancelPlan { at: cfg.cancel, at_call: cfg.cancel_call, transient: cfg.transient };
     if cfg.mode == "async" {
         let gates = Rc::new(Gates::default());
         provider.gates = Some(gates.clone());
